@@ -20,20 +20,29 @@ Core Lean only (imported by the oracle executable).
 -/
 namespace MV.Model.MPSC
 
-def pushProg : String :=
-  "n=new(mpscNode); n.val=m; prev=swap(q.head,n); store(prev.next,n)"
-
-def popProg : String :=
-  "tail=q.tail; next=load(tail.next); if(next!=nil){ q.tail=next; v=next.val; next.val=nil; return v }; return nil"
-
-def emptyProg : String :=
-  "tail=q.tail; next=load(tail.next); return next==nil"
-
 inductive PC where
   | swap (v : Int)        -- prev = swap(q.head, n)
   | store (prev : Nat)    -- store(prev.next, n)
   | done
   deriving Repr, DecidableEq
+
+/-- the atomic operation a producer at `pc` executes next, as printed in the program text -/
+def PC.instr : PC → String
+  | .swap _ => "swap(q.head,n)"
+  | .store _ => "store(prev.next,n)"
+  | .done => ""
+
+/-- canonical text of `Push`; the atomic operations are spliced in from `PC.instr` -/
+def pushProg : String :=
+  "n=new(mpscNode); n.val=m; prev=" ++ (PC.swap 0).instr ++ "; " ++ (PC.store 0).instr
+
+/-- canonical text of `Pop` (one shared-memory access: the load of `tail.next`, `Act.pop`) -/
+def popProg : String :=
+  "tail=q.tail; next=load(tail.next); if(next!=nil){ q.tail=next; v=next.val; next.val=nil; return v }; return nil"
+
+/-- canonical text of `Empty` -/
+def emptyProg : String :=
+  "tail=q.tail; next=load(tail.next); return next==nil"
 
 structure Thread where
   pc : PC
